@@ -86,48 +86,3 @@ Definition spec_params : params := {|
   p_send_header := fun l => 0 :: len3 l;
   p_send_ops := [WLock "wrMutex"%string; WWrite [PHeader]; WWrite [PPayload]; WUnlock "wrMutex"%string]
 |}.
-
-(** ** write discipline (for PeerDiscipline.v) *)
-
-(** the writes of an op list, with whether they happen inside a region that
-    holds mutex [m] *)
-Fixpoint w_locked (m : String.string) (held : bool) (ops : list wop) : bool :=
-  match ops with
-  | [] => negb held
-  | WLock m' :: t => if String.eqb m m' then negb held && w_locked m true t else w_locked m held t
-  | WUnlock m' :: t => if String.eqb m m' then held && w_locked m false t else w_locked m held t
-  | WWrite _ :: t => held && w_locked m held t
-  end.
-
-Fixpoint r_locked (m : String.string) (held : bool) (ops : list rop) : bool :=
-  match ops with
-  | [] => negb held
-  | RLock m' :: t => if String.eqb m m' then negb held && r_locked m true t else r_locked m held t
-  | RUnlock m' :: t => if String.eqb m m' then held && r_locked m false t else r_locked m held t
-  | RWrite _ :: t | REcho _ :: t => held && r_locked m held t
-  | RContinue :: _ | RCloseReturn :: _ => negb held
-  | _ :: t => r_locked m held t
-  end.
-
-Definition w_writes (ops : list wop) : nat :=
-  length (filter (fun o => match o with WWrite _ => true | _ => false end) ops).
-Definition r_writes (ops : list rop) : nat :=
-  length (filter (fun o => match o with RWrite _ => true | _ => false end) ops).
-Definition r_echoes (ops : list rop) : bool :=
-  existsb (fun o => match o with REcho _ => true | _ => false end) ops.
-
-Definition first_lock (ops : list wop) : option String.string :=
-  match filter (fun o => match o with WLock _ => true | _ => false end) ops with
-  | WLock m :: _ => Some m
-  | _ => None
-  end.
-
-(** frames of the writer goroutine and PONG replies of the reader goroutine
-    cannot interleave: either both are written under one common mutex, or each
-    is a single [conn.Write] call (atomic on a net.Conn) *)
-Definition discipline_ok (sops : list wop) (pops : list rop) : bool :=
-  match first_lock sops with
-  | Some m => w_locked m false sops && r_locked m false pops
-  | None => false
-  end
-  || ((w_writes sops =? 1)%nat && (r_writes pops =? 1)%nat && negb (r_echoes pops)).
